@@ -178,10 +178,15 @@ Definition ser_fixed (n : N) (b : bytes) : option bytes :=
 
 (* ---------- adapters ---------- *)
 
-Inductive adapter :=
+Inductive sadapter :=
 | ABool
 | AEnum (tbl : list (N * Z)) (strict : bool)     (* members in definition order: name, value *)
-| AFlag (tbl : list (N * Z)).                     (* canonical single-bit members *)
+| AFlag (tbl : list (N * Z))                      (* canonical single-bit members *)
+| AOpaqueInt (id : N).
+(* AOpaqueInt: QuantizedFloat / FixedPoint / ... - an int adapter whose Python-side value (a float) is
+   represented in the model by the wire int it encodes to.  The abstraction is sound for the values v with
+   decode (encode v) = v, i.e. under the hypothesis "lossless on the wire domain" that C10 proves per
+   instance; the harness checks that hypothesis on every value it uses. *)
 
 Fixpoint find_value (z : Z) (tbl : list (N * Z)) : option N :=
   match tbl with
@@ -218,7 +223,7 @@ Definition flags_to_pod (tbl : list (N * Z)) (z : Z) : list value :=
   let lo := Z.land z (Z.lnot (flags_all tbl)) in
   named ++ (if Z.eqb lo 0 then [] else [VInt lo]).
 
-Definition aenc (a : adapter) (v : value) : option value :=
+Definition aenc_s (a : sadapter) (v : value) : option value :=
   match a with
   | ABool => Some (VInt (if truthy v then 1 else 0))
   | AEnum tbl _ =>
@@ -232,9 +237,10 @@ Definition aenc (a : adapter) (v : value) : option value :=
     | VList l => match flag_or tbl l with Some z => Some (VInt z) | None => None end
     | _ => None
     end
+  | AOpaqueInt _ => match v with VInt _ => Some v | _ => None end
   end.
 
-Definition adec (a : adapter) (pod : bool) (v : value) : option value :=
+Definition adec_s (a : sadapter) (pod : bool) (v : value) : option value :=
   match a with
   | ABool => Some (VInt (if truthy v then 1 else 0))
   | AEnum tbl strict =>
@@ -251,12 +257,109 @@ Definition adec (a : adapter) (pod : bool) (v : value) : option value :=
     | VInt z => Some (if pod then VList (flags_to_pod tbl z) else VInt z)
     | _ => None
     end
+  | AOpaqueInt _ => match v with VInt _ => Some v | _ => None end
+  end.
+
+(* BitField adapter (serialization.BitField over helpers.BitField): schema = (name, bits, field adapter) *)
+Definition bschema := list (N * N * option sadapter).
+
+Definition bf_mask (bits : N) : Z := (2 ^ Z.of_N bits - 1)%Z.
+
+Fixpoint bf_pack (fs : bschema) (shift : bool) (cur : Z) (ints : list Z) : option Z :=
+  match fs, ints with
+  | [], [] => Some 0%Z
+  | (_, bits, _) :: fs', x :: ints' =>
+    let mask := bf_mask bits in
+    match bf_pack fs' shift (cur + Z.of_N bits)%Z ints' with
+    | None => None
+    | Some rest =>
+      if shift then (if (mask <? x)%Z then None else Some (Z.lor (Z.shiftl x cur) rest))
+      else (if Z.eqb x (Z.land x (Z.shiftl mask cur)) then Some (Z.lor x rest) else None)
+    end
+  | _, _ => None
+  end.
+
+Fixpoint bf_unpack (fs : bschema) (shift : bool) (cur : Z) (z : Z) : list Z :=
+  match fs with
+  | [] => []
+  | (_, bits, _) :: fs' =>
+    let val := Z.land (Z.shiftr z cur) (bf_mask bits) in
+    (if shift then val else Z.shiftl val cur) :: bf_unpack fs' shift (cur + Z.of_N bits)%Z z
+  end.
+
+Fixpoint bf_field_ints (fs : bschema) (kvs : list (N * value)) : option (list Z) :=
+  match fs with
+  | [] => Some []
+  | (n, _, fa) :: fs' =>
+    match lookup n kvs with
+    | None => None                                        (* KeyError *)
+    | Some v =>
+      match (match fa with None => Some v | Some a => aenc_s a v end), bf_field_ints fs' kvs with
+      | Some (VInt x), Some r => Some (x :: r)
+      | _, _ => None
+      end
+    end
+  end.
+
+Fixpoint bf_field_vals (fs : bschema) (pod : bool) (ints : list Z) : option (list (N * value)) :=
+  match fs, ints with
+  | [], _ => Some []
+  | (n, _, fa) :: fs', x :: ints' =>
+    match (match fa with None => Some (VInt x) | Some a => adec_s a pod (VInt x) end),
+          bf_field_vals fs' pod ints' with
+    | Some v, Some r => Some ((n, v) :: r)
+    | _, _ => None
+    end
+  | _, [] => None
+  end.
+
+Definition bf_enc (fs : bschema) (shift : bool) (v : value) : option value :=
+  match v with
+  | VInt _ => Some v                                      (* already packed *)
+  | VDict kvs =>
+    if forallb (fun kv => existsb (fun f => N.eqb (fst kv) (fst (fst f))) fs) kvs then
+      match bf_field_ints fs kvs with
+      | Some ints => match bf_pack fs shift 0%Z ints with Some z => Some (VInt z) | None => None end
+      | None => None
+      end
+    else None                                             (* KeyError on an unknown key *)
+  | _ => None
+  end.
+
+Definition bf_dec (fs : bschema) (shift : bool) (pod : bool) (v : value) : option value :=
+  match v with
+  | VInt z => match bf_field_vals fs pod (bf_unpack fs shift 0%Z z) with
+              | Some kvs => Some (VDict kvs)
+              | None => None
+              end
+  | _ => None
+  end.
+
+Inductive adapter :=
+| ASimple (a : sadapter)
+| ABitField (fs : bschema) (shift : bool).
+
+Definition aenc (a : adapter) (v : value) : option value :=
+  match a with ASimple a' => aenc_s a' v | ABitField fs sh => bf_enc fs sh v end.
+
+Definition adec (a : adapter) (pod : bool) (v : value) : option value :=
+  match a with ASimple a' => adec_s a' pod v | ABitField fs sh => bf_dec fs sh pod v end.
+
+(* OptionalFlagged._normalize_flag_val: the int of the sibling flag field found in the context *)
+Definition ctx_flag (c : list (N * value)) (f : N) (ftbl : option (list (N * Z))) : option Z :=
+  match lookup f c with
+  | None => None
+  | Some v =>
+    match ftbl with
+    | None => match v with VInt z => Some z | _ => None end
+    | Some tbl => match aenc_s (AFlag tbl) v with Some (VInt z) => Some z | _ => None end
+    end
   end.
 
 (* ---------- the grammar ---------- *)
 
 Inductive lenk := LPrefixed (ip : iprim) | LFixed (n : N) | LGreedy.
-Inductive tbk := TBGreedy | TBArray (ip : iprim) | TBFixed (n : N) | TBTerm (ts : list N).
+Inductive tbk := TBGreedy | TBArray (ip : iprim) | TBFixed (n : N) | TBTerm (ts : list N) (skip_none : bool).
 
 Inductive spec :=
 | SPrim (p : prim)
@@ -270,18 +373,18 @@ Inductive spec :=
 | SUUID
 | SNull
 | STuple (ss : list spec)
-| STemplate (fs : list (N * spec)) (skip : bool)
+| STemplate (fs : list (N * spec)) (skip : bool) (record : bool)   (* record: a Dataclass (Template + record adapter) *)
 | SCollection (k : lenk) (s : spec)
 | SOptPrefixed (s : spec)
 | SAdapter (a : adapter) (s : spec)
 | STypedBytes (k : tbk) (s : spec) (en ct : bool)
-(* stage 2 (modelled, not covered by the proofs: wf = false) *)
 | SIfPresent (s : spec)
 | SLengthSwitch (cs : list (option N * spec))
-| SEnumSwitch (tbl : list (N * Z)) (strict : bool) (ip : iprim) (cs : list (Z * spec)).
+| SEnumSwitch (tbl : list (N * Z)) (strict : bool) (ip : iprim) (cs : list (Z * spec))
+| SOptFlagged (field : N) (ftbl : option (list (N * Z))) (mask : Z) (s : spec).
 
 Definition optional (s : spec) : bool :=      (* class attribute OPTIONAL *)
-  match s with SOptPrefixed _ => true | _ => false end.
+  match s with SOptPrefixed _ | SOptFlagged _ _ _ _ => true | _ => false end.
 
 (* ---------- generic sequencing helpers ---------- *)
 
@@ -396,6 +499,23 @@ Fixpoint find_choice {K A} (eqb : K -> K -> bool) (k : K) (l : list (K * A)) : o
 Definition optN_eqb (a b : option N) : bool :=
   match a, b with Some x, Some y => N.eqb x y | None, None => true | _, _ => false end.
 
+(* the byte-string frame of a TypedBytes wrapper *)
+Definition frame_ser (e : bool) (k : tbk) (buf : bytes) : option bytes :=
+  match k with
+  | TBGreedy => Some buf
+  | TBArray ip => ser_bytearray e ip buf
+  | TBFixed n => ser_fixed n buf
+  | TBTerm ts _ => ser_term ts true buf
+  end.
+
+Definition frame_de (e : bool) (k : tbk) (b : bytes) : option (bytes * bytes) :=
+  match k with
+  | TBGreedy => Some (b, [])
+  | TBArray ip => de_bytearray e ip b
+  | TBFixed n => takeN n b
+  | TBTerm ts _ => de_term ts true b
+  end.
+
 (* ---------- serialize ---------- *)
 
 Fixpoint ser (e : bool) (s : spec) (c : ctx) (v : value) {struct s} : option bytes :=
@@ -431,7 +551,7 @@ Fixpoint ser (e : bool) (s : spec) (c : ctx) (v : value) {struct s} : option byt
   | SNull => Some []
   | STuple ss =>
     match v with VList vs => ser_seq (map (fun s' => ser e s' []) ss) vs | _ => None end
-  | STemplate fs _ =>
+  | STemplate fs _ _ =>
     match v with
     | VDict kvs => ser_fields (map (fun f => (fst f, optional (snd f), ser e (snd f) kvs)) fs) kvs
     | _ => None
@@ -458,20 +578,12 @@ Fixpoint ser (e : bool) (s : spec) (c : ctx) (v : value) {struct s} : option byt
     end
   | SAdapter a s' => match aenc a v with Some v' => ser e s' c v' | None => None end
   | STypedBytes k s' en _ =>
-    match k, (en && is_none v) with
-    | TBTerm _, true => Some []                    (* TypedBytesTerminated: nothing at all *)
-    | _, none_case =>
-      match (if none_case then Some [] else ser e s' c v) with
-      | None => None
-      | Some buf =>
-        match k with
-        | TBGreedy => Some buf
-        | TBArray ip => ser_bytearray e ip buf
-        | TBFixed n => ser_fixed n buf
-        | TBTerm ts => ser_term ts true buf
-        end
+    if en && is_none v then
+      match k with
+      | TBTerm _ true => Some []                  (* TypedBytesTerminated(skip_none): nothing at all *)
+      | _ => frame_ser e k []
       end
-    end
+    else match ser e s' c v with Some buf => frame_ser e k buf | None => None end
   | SIfPresent s' => match v with VNone => Some [] | _ => ser e s' c v end
   | SLengthSwitch cs =>
     match v with
@@ -492,7 +604,7 @@ Fixpoint ser (e : bool) (s : spec) (c : ctx) (v : value) {struct s} : option byt
   | SEnumSwitch tbl strict ip cs =>
     match v with
     | VList [t; x] =>
-      match aenc (AEnum tbl strict) t with
+      match aenc_s (AEnum tbl strict) t with
       | Some (VInt z) =>
         match enc_int e ip z,
               find_choice Z.eqb z (map (fun cs' => (fst cs', ser e (snd cs') c)) cs) with
@@ -502,6 +614,11 @@ Fixpoint ser (e : bool) (s : spec) (c : ctx) (v : value) {struct s} : option byt
       | _ => None
       end
     | _ => None
+    end
+  | SOptFlagged f ftbl mask s' =>
+    match ctx_flag c f ftbl with
+    | None => None                                 (* KeyError / TypeError on the context lookup *)
+    | Some z => if Z.eqb (Z.land z mask) 0 then Some [] else ser e s' c v
     end
   end.
 
@@ -540,7 +657,7 @@ Fixpoint de (e pod : bool) (s : spec) (c : ctx) (b : bytes) {struct s} : dres :=
     end
   | SNull => Some (VNone, b)
   | STuple ss => pack_list (de_seq (map (fun s' => de e pod s' []) ss) b)
-  | STemplate fs skip =>
+  | STemplate fs skip _ =>
     match de_fields (map (fun f => (fst f, optional (snd f), de e pod (snd f))) fs) skip [] b with
     | Some (kvs, r) => Some (VDict kvs, r)
     | None => None
@@ -568,12 +685,7 @@ Fixpoint de (e pod : bool) (s : spec) (c : ctx) (b : bytes) {struct s} : dres :=
     | None => None
     end
   | STypedBytes k s' en ct =>
-    match (match k with
-           | TBGreedy => Some (b, [])
-           | TBArray ip => de_bytearray e ip b
-           | TBFixed n => takeN n b
-           | TBTerm ts => de_term ts true b
-           end) with
+    match frame_de e k b with
     | None => None
     | Some (buf, r) =>
       if en && is_nil buf then Some (VNone, r)
@@ -600,7 +712,7 @@ Fixpoint de (e pod : bool) (s : spec) (c : ctx) (b : bytes) {struct s} : dres :=
     match dec_int e ip b with
     | None => None
     | Some (z, r) =>
-      match adec (AEnum tbl strict) pod (VInt z) with
+      match adec_s (AEnum tbl strict) pod (VInt z) with
       | None => None
       | Some t =>
         match find_choice Z.eqb z (map (fun cs' => (fst cs', de e pod (snd cs') c)) cs) with
@@ -609,6 +721,11 @@ Fixpoint de (e pod : bool) (s : spec) (c : ctx) (b : bytes) {struct s} : dres :=
         | None => None
         end
       end
+    end
+  | SOptFlagged f ftbl mask s' =>
+    match ctx_flag c f ftbl with
+    | None => None
+    | Some z => if Z.eqb (Z.land z mask) 0 then Some (VNone, b) else de e pod s' c b
     end
   end.
 
@@ -628,7 +745,7 @@ Fixpoint calc_size (s : spec) : option N :=
   | SBytesFixed n => Some n
   | SUUID => Some 16
   | STuple ss => sum_sizes (map calc_size ss)
-  | STemplate fs _ => sum_sizes (map (fun f => calc_size (snd f)) fs)
+  | STemplate fs _ rc => if rc then None else sum_sizes (map (fun f => calc_size (snd f)) fs)
   | SAdapter _ s' => calc_size s'
   | _ => None
   end.
@@ -642,7 +759,7 @@ Fixpoint exact_size (s : spec) : option N :=
   | SUUID => Some 16
   | SNull => Some 0
   | STuple ss => sum_sizes (map exact_size ss)
-  | STemplate fs _ => sum_sizes (map (fun f => exact_size (snd f)) fs)
+  | STemplate fs _ _ => sum_sizes (map (fun f => exact_size (snd f)) fs)
   | SAdapter _ s' => exact_size s'
   | _ => None
   end.
@@ -659,14 +776,14 @@ Fixpoint min_size (s : spec) : N :=
   | SBytesTerm _ wt _ | SCStr _ wt _ => if wt then 1 else 0
   | SUUID => 16
   | STuple ss => sumN (map min_size ss)
-  | STemplate fs _ => sumN (map (fun f => min_size (snd f)) fs)
+  | STemplate fs _ _ => sumN (map (fun f => min_size (snd f)) fs)
   | SCollection k s' =>
     match k with LPrefixed ip => wN (ip_width ip) | LFixed n => n * min_size s' | LGreedy => 0 end
   | SOptPrefixed _ => 1
   | SAdapter _ s' => min_size s'
   | STypedBytes k _ _ _ =>
     match k with TBArray ip => wN (ip_width ip) | TBFixed n => n | _ => 0 end
-  | SIfPresent _ | SLengthSwitch _ => 0
+  | SIfPresent _ | SLengthSwitch _ | SOptFlagged _ _ _ _ => 0
   | SEnumSwitch _ _ ip _ => wN (ip_width ip)
   end.
 
@@ -676,10 +793,11 @@ Fixpoint delimited (s : spec) : bool :=
   | SBytesGreedy => false
   | SBytesTerm _ wt _ | SCStr _ wt _ => wt
   | STuple ss => forallb delimited ss
-  | STemplate fs _ => forallb (fun f => delimited (snd f)) fs
+  | STemplate fs _ _ => forallb (fun f => delimited (snd f)) fs
   | SCollection k _ => match k with LPrefixed _ => true | LFixed n => negb (n =? 0) | LGreedy => false end
-  | SOptPrefixed s' | SAdapter _ s' => delimited s'
-  | STypedBytes k _ _ _ => match k with TBGreedy => false | _ => true end
+  | SOptPrefixed s' | SAdapter _ s' | SOptFlagged _ _ _ s' => delimited s'
+  | STypedBytes k _ en _ =>
+    match k with TBGreedy => false | TBTerm _ sk => negb (en && sk) | _ => true end
   | SIfPresent _ | SLengthSwitch _ => false
   | SEnumSwitch _ _ _ cs => forallb (fun c => delimited (snd c)) cs
   | _ => true
@@ -695,10 +813,33 @@ Fixpoint butlast_all (l : list bool) : bool :=
 Fixpoint nodupN (l : list N) : bool :=
   match l with [] => true | x :: r => negb (memN x r) && nodupN r end.
 
+Definition awf_s (a : sadapter) : bool :=
+  match a with
+  | AEnum tbl _ | AFlag tbl => nodupN (map fst tbl)
+  | _ => true
+  end.
+
 Definition awf (a : adapter) : bool :=
   match a with
-  | ABool => true
-  | AEnum tbl _ | AFlag tbl => nodupN (map fst tbl)
+  | ASimple a' => awf_s a'
+  | ABitField fs _ => nodupN (map (fun f => fst (fst f)) fs)
+  end.
+
+(* context references of a spec at its own nesting level (sequences and templates rebind the context) *)
+Fixpoint refs (s : spec) : list N :=
+  match s with
+  | SOptFlagged f _ _ s' => f :: refs s'
+  | SOptPrefixed s' | SAdapter _ s' | STypedBytes _ s' _ _ | SIfPresent s' => refs s'
+  | SLengthSwitch cs => flat_map (fun c => refs (snd c)) cs
+  | SEnumSwitch _ _ _ cs => flat_map (fun c => refs (snd c)) cs
+  | _ => []
+  end.
+
+(* every member only refers to members that precede it *)
+Fixpoint refs_ok (seen : list N) (fs : list (N * list N)) : bool :=
+  match fs with
+  | [] => true
+  | (n, rs) :: r => forallb (fun x => memN x seen) rs && refs_ok (n :: seen) r
   end.
 
 Definition term_ok (ts : list N) (wt eof : bool) : bool := negb (is_nil ts) && (wt || eof).
@@ -709,9 +850,9 @@ Fixpoint wf (s : spec) : bool :=
   match s with
   | SBytesTerm ts wt eof | SCStr ts wt eof => term_ok ts wt eof
   | STuple ss => forallb wf ss && butlast_all (map delimited ss)
-  | STemplate fs _ =>
+  | STemplate fs _ _ =>
     forallb (fun f => wf (snd f)) fs && butlast_all (map (fun f => delimited (snd f)) fs)
-    && nodupN (map fst fs)
+    && nodupN (map fst fs) && refs_ok [] (map (fun f => (fst f, refs (snd f))) fs)
   | SCollection k s' =>
     wf s' && delimited s' &&
     match k with
@@ -722,10 +863,11 @@ Fixpoint wf (s : spec) : bool :=
   | SOptPrefixed s' => wf s'
   | SAdapter a s' => wf s' && awf a
   | STypedBytes k s' en _ =>
-    wf s' && (negb en || (0 <? min_size s')) && match k with TBTerm _ => false | _ => true end
+    wf s' && (negb en || (0 <? min_size s')) && match k with TBTerm ts _ => negb (is_nil ts) | _ => true end
   | SIfPresent s' => wf s' && (0 <? min_size s')
   | SEnumSwitch _ _ _ cs => forallb (fun c => wf (snd c)) cs
   | SLengthSwitch cs => forallb (fun c => wf (snd c)) cs
+  | SOptFlagged _ _ _ s' => wf s'
   | _ => true
   end.
 
@@ -759,7 +901,7 @@ Fixpoint items_eqb (a b : list value) : bool :=     (* lists of names / ints onl
   | _, _ => false
   end.
 
-Definition adomb (a : adapter) (pod : bool) (D : value -> bool) (v : value) : bool :=
+Definition adomb_s (a : sadapter) (pod : bool) (D : value -> bool) (v : value) : bool :=
   match a with
   | ABool => match v with VInt z => (Z.eqb z 0 || Z.eqb z 1) && D v | _ => false end
   | AEnum tbl strict =>
@@ -783,12 +925,47 @@ Definition adomb (a : adapter) (pod : bool) (D : value -> bool) (v : value) : bo
              end
     | _ => false
     end
+  | AOpaqueInt _ => match v with VInt _ => D v | _ => false end
+  end.
+
+Definition fval_eqb (a b : value) : bool :=
+  match a, b with
+  | VInt x, VInt y => Z.eqb x y
+  | VName x, VName y => N.eqb x y
+  | VList l1, VList l2 => items_eqb l1 l2
+  | _, _ => false
+  end.
+
+Fixpoint kvs_eqb (a b : list (N * value)) : bool :=
+  match a, b with
+  | [], [] => true
+  | (k, x) :: a', (k', y) :: b' => N.eqb k k' && fval_eqb x y && kvs_eqb a' b'
+  | _, _ => false
+  end.
+
+Definition adomb (a : adapter) (pod : bool) (D : value -> bool) (v : value) : bool :=
+  match a with
+  | ASimple a' => adomb_s a' pod D v
+  | ABitField fs sh =>
+    (* a dict that packs to an int of the child's domain and is exactly what that int unpacks to *)
+    match v with
+    | VDict kvs =>
+      match bf_enc fs sh v with
+      | Some (VInt z) =>
+        D (VInt z) && match bf_dec fs sh pod (VInt z) with
+                      | Some (VDict kvs') => kvs_eqb kvs' kvs
+                      | _ => false
+                      end
+      | _ => false
+      end
+    | _ => false
+    end
   end.
 
 Definition int_domb (ip : iprim) (v : value) : bool :=
   match v with VInt z => (ip_min ip <=? z)%Z && (z <=? ip_max ip)%Z | _ => false end.
 
-Fixpoint domb (pod : bool) (s : spec) (v : value) {struct s} : bool :=
+Fixpoint domb (e pod : bool) (s : spec) (c : ctx) (v : value) {struct s} : bool :=
   match s with
   | SPrim (PI ip) => int_domb ip v
   | SPrim PF32 => match v with VF bits => bits <? 2 ^ 32 | _ => false end
@@ -814,16 +991,16 @@ Fixpoint domb (pod : bool) (s : spec) (v : value) {struct s} : bool :=
     | _ => false
     end
   | SNull => is_none v
-  | STuple ss => match v with VList vs => all2 (map (domb pod) ss) vs | _ => false end
-  | STemplate fs skip =>
+  | STuple ss => match v with VList vs => all2 (map (fun s' => domb e pod s' []) ss) vs | _ => false end
+  | STemplate fs skip _ =>
     match v with
-    | VDict kvs => tdomb (map (fun f => (fst f, optional (snd f), domb pod (snd f))) fs) skip kvs
+    | VDict kvs => tdomb (map (fun f => (fst f, optional (snd f), domb e pod (snd f) kvs)) fs) skip kvs
     | _ => false
     end
   | SCollection k s' =>
     match v with
     | VList vs =>
-      forallb (domb pod s') vs &&
+      forallb (domb e pod s' []) vs &&
       match k with
       | LPrefixed ip => (Z.of_nat (length vs) <=? ip_max ip)%Z
       | LFixed n => (n =? 0) || (N.of_nat (length vs) =? n)
@@ -831,17 +1008,24 @@ Fixpoint domb (pod : bool) (s : spec) (v : value) {struct s} : bool :=
       end
     | _ => false
     end
-  | SOptPrefixed s' => is_none v || domb pod s' v
-  | SAdapter a s' => adomb a pod (domb pod s') v
-  | STypedBytes _ s' en _ => (en && is_none v) || domb pod s' v
-  | SIfPresent s' => is_none v || domb pod s' v
+  | SOptPrefixed s' => is_none v || domb e pod s' c v
+  | SAdapter a s' => adomb a pod (domb e pod s' c) v
+  | STypedBytes k s' en _ =>
+    (en && is_none v) ||
+    (domb e pod s' c v &&
+     match k with
+     | TBTerm ts _ =>                  (* the inner encoding must not contain a terminator *)
+       match ser e s' c v with Some buf => no_term ts buf | None => true end
+     | _ => true
+     end)
+  | SIfPresent s' => is_none v || domb e pod s' c v
   | SEnumSwitch tbl strict ip cs =>
     match v with
     | VList [t; x] =>
-      adomb (AEnum tbl strict) pod (int_domb ip) t &&
-      match aenc (AEnum tbl strict) t with
+      adomb_s (AEnum tbl strict) pod (int_domb ip) t &&
+      match aenc_s (AEnum tbl strict) t with
       | Some (VInt z) =>
-        match find_choice Z.eqb z (map (fun c => (fst c, domb pod (snd c))) cs) with
+        match find_choice Z.eqb z (map (fun c' => (fst c', domb e pod (snd c') c)) cs) with
         | Some D => D x
         | None => false
         end
@@ -850,18 +1034,24 @@ Fixpoint domb (pod : bool) (s : spec) (v : value) {struct s} : bool :=
     | _ => false
     end
   | SLengthSwitch cs =>
-    (* the tag is the byte count of the window: the chosen branch must have exactly that size *)
+    (* the tag is the byte count of the window: the encoding by the chosen branch has that length *)
     match v with
     | VList [VInt t; x] =>
       (0 <=? t)%Z &&
-      let choices := map (fun c => (fst c, (exact_size (snd c), domb pod (snd c)))) cs in
+      let choices := map (fun c' => (fst c', (ser e (snd c') c, domb e pod (snd c') c))) cs in
       match (match find_choice optN_eqb (Some (Z.to_N t)) choices with
              | Some f => Some f
              | None => find_choice optN_eqb None choices
              end) with
-      | Some (sz, D) => optN_eqb sz (Some (Z.to_N t)) && D x
+      | Some (F, D) =>
+        D x && match F x with Some b => N.of_nat (length b) =? Z.to_N t | None => true end
       | None => false
       end
     | _ => false
+    end
+  | SOptFlagged f ftbl mask s' =>
+    match ctx_flag c f ftbl with
+    | Some z => if Z.eqb (Z.land z mask) 0 then is_none v else domb e pod s' c v
+    | None => false
     end
   end.
